@@ -1,3 +1,4 @@
 pub mod common;
 pub mod server_tcp;
 pub mod client;
+pub mod rtu;
